@@ -427,8 +427,12 @@ def rand_acc(rng):
     if k == "hist2":
         return ["hist", "2d"]
     if k == "sib":
+        # (an analysis that yields several values per cell gives several histograms per
+        # compute(): each one carries its own context)
         return ["sib", rng.choice([["sum"], ["count", "count"], ["mean", None], ["hist", "1d"],
-                                   ["vmc", 0]]), rng.choice(["", "coord"])]
+                                   ["vmc", 0], ["splitfc", [["sum"], ["mean", None]]],
+                                   ["splitfc", [["sum"], ["count", "n"], ["dsum"]]]]),
+                rng.choice(["", "coord"])]
     if k == "graph":
         return ["graph", rng.random() < 0.5]
     if k == "fr":
@@ -532,7 +536,9 @@ def corner_cases():
     """Enumerated table: every accumulator kind once with a fixed history."""
     accs = list(SCALAR_ACCS) + [["hist", "2d"], ["vec", ["sum"], 2], ["vec", ["storeflat"], 2],
                                 ["sib", ["sum"], "coord"],
-                                ["sib", ["hist", "1d"], ""], ["graph", 1], ["graph", 0],
+                                ["sib", ["hist", "1d"], ""],
+                                ["sib", ["splitfc", [["sum"], ["mean", None]]], "coord"],
+                                ["graph", 1], ["graph", 0],
                                 ["fr", ["sum"], 1, 0], ["fr", ["hist", "1d"], 1, 0],
                                 ["zip", [["sum"], ["count", "count"]]],
                                 ["splitfc", [["sum"], ["mean", None]]]]
